@@ -34,4 +34,9 @@ for s in seeds:
     subprocess.run(['git', '-C', '/repo', 'checkout', '--', '.'])
     res[name] = fired
     print(name, 'CAUGHT' if fired else 'missed', json.dumps(fired))
-json.dump(res, open(V + '/seeded/matrix.json', 'w'), indent=1)
+try:
+    old = json.load(open(V + '/seeded/matrix.json'))
+except Exception:
+    old = {}
+old.update(res)
+json.dump(old, open(V + '/seeded/matrix.json', 'w'), indent=1, sort_keys=True)
